@@ -5,7 +5,7 @@
    execution after every action; `no_err err_Cxx m` = the monitor reported no error of this property's class;
    `no_raise ls` = no request ended in an exception. *)
 From Coq Require Import ZArith List Bool.
-From CS Require Ops RevConv RevBridge4 RevolveRun Refuted DiskRun DiskBridge3 HRevRun.
+From CS Require Ops RevConv RevBridge4 RevolveRun Refuted DiskRun DiskBridge3 HRevRun HRevTop.
 From CS Require Import Actions NAdvance Multistage Exec Sched RunFacts Projections BasicInv MultistageRun AllocTotal TLBridge MixBridge.
 Import ListNotations.
 Open Scope Z_scope.
@@ -90,14 +90,13 @@ Proof.
 Qed.
 Print Assumptions C03_periodic_disk_revolve.
 
-(* HRevolve (two levels): every N, every RAM count >= 1, any disk count and cost vector for which the constructor returns (its
-   dynamic program is not proved total); budgets RAM = snapshots_in_ram, DISK unbounded (the DISK budget itself: C03_hrevolve_refuted).
-   As for DiskRevolve the only verdict other than "no error" is E_leftover at the final EndReverse (D8) *)
-Theorem C03_hrevolve : forall (N ram disk uf ub wd rd : Z) (L : list Ops.op) (k : nat), 1 <= N -> 1 <= ram ->
-  RevConv.sequence RevConv.KHRevolve N ram disk uf ub wd rd = Ok L ->
+(* HRevolve (two levels): every N, every RAM count >= 1, every disk count >= 0, every cost vector (the constructor's dynamic
+   program and recursion are proved total: HRevTotal); budgets RAM = snapshots_in_ram, DISK unbounded (the DISK budget itself:
+   C03_hrevolve_refuted).  As for DiskRevolve the only verdict other than "no error" is E_leftover at the final EndReverse (D8) *)
+Theorem C03_hrevolve : forall (N ram disk uf ub wd rd : Z) (k : nat), 1 <= N -> 1 <= ram -> 0 <= disk ->
   exists o0 m ls, run_case (PRev RevConv.KHRevolve N ram disk uf ub wd rd) (DiskRun.disk_xparams N ram) (repeat Next k) = Ok (o0, m, ls) /\ no_err err_C03 m /\ no_raise ls.
 Proof.
-  intros N ram disk uf ub wd rd L k H1 H2 HL. destruct (HRevRun.hrevolve_run N ram disk uf ub wd rd L k H1 H2 HL) as (o0 & m & ls & E & Hl & Hm).
+  intros N ram disk uf ub wd rd k H1 H2 H3. destruct (HRevTop.hrevolve_run_total N ram disk uf ub wd rd k H1 H2 H3) as (o0 & m & ls & E & Hl & Hm).
   exists o0, m, ls. split; [exact E|]. split; [apply (DiskRun.leftover_no_err _ m Hm); intros []|exact Hl].
 Qed.
 Print Assumptions C03_hrevolve.
